@@ -99,6 +99,9 @@ type c15Cfg struct {
 	Level   int    `json:"compression_level,omitempty"`
 	Bulk    int    `json:"bulk_attribute_bytes,omitempty"`
 	Outcome string `json:"consumer_outcome"`
+	// Msg: what the consumer's error message looks like (ascii, utf8, invalid-utf8, long, empty); it must not change
+	// what the failure means to the sender
+	Msg     string `json:"consumer_error_message,omitempty"`
 	RetryMs int    `json:"retry_info_ms"` // -1 = no RetryInfo
 	Auth    bool   `json:"server_authenticator"`
 	Creds   bool   `json:"client_sends_credentials"`
@@ -161,18 +164,33 @@ func runC15(r *simkit.Run) {
 	}
 	var outcome error
 	var code codes.Code = codes.OK
+	cfg.Msg = []string{"ascii", "utf8", "invalid-utf8", "long", "empty"}[tp.Weighted(12, 1, 1, 1, 1)]
+	msgOf := func(base string) string {
+		switch cfg.Msg {
+		case "utf8":
+			return base + " r\u00e9sum\u00e9 \u2713 \U0001F600"
+		case "invalid-utf8":
+			return base + " raw bytes \xff\xfe\x80 in the message"
+		case "long":
+			return base + " " + strings.Repeat("very long explanation ", 500)
+		case "empty":
+			return ""
+		}
+		return base
+	}
 	switch tp.Weighted(3, 1, 1, 4) {
 	case 0:
 		cfg.Outcome = "accept"
+		cfg.Msg = ""
 	case 1:
 		cfg.Outcome = "permanent"
-		outcome = consumererror.NewPermanent(errors.New("sim consumer: permanent"))
+		outcome = consumererror.NewPermanent(errors.New(msgOf("sim consumer: permanent")))
 	case 2:
 		cfg.Outcome = "transient"
-		outcome = errors.New("sim consumer: transient")
+		outcome = errors.New(msgOf("sim consumer: transient"))
 	default:
 		code = allCodes[tp.Draw(len(allCodes))]
-		st := status.New(code, "sim consumer: status")
+		st := status.New(code, msgOf("sim consumer: status"))
 		if tp.Chance(1, 2) {
 			cfg.RetryMs = []int{0, 500, 2000, 61000}[tp.Draw(4)]
 			st2, err := st.WithDetails(&errdetails.RetryInfo{RetryDelay: durationpb.New(time.Duration(cfg.RetryMs) * time.Millisecond)})
